@@ -299,6 +299,41 @@ def run(ctx):
                else "the key is not validated before the record is journaled: insert(\"\") journals a record the tree then panics on — the journal mutex is poisoned and EVERY later open of the database panics while replaying that record",
                fn.loc(app[0]) if app else "")
 
+    # (batch items: validated where they are created)
+    itn = None
+    for k_ in F.fns:
+        if k_.split("::<")[0] == "batch::item::Item::new" or k_ == "batch::item::Item::new":
+            itn = F.fns[k_]
+    if itn is None:
+        ctx.fn("batch::item::Item::new", "R-C02.8")
+    else:
+        ogi = ctx.og(itn)
+        emp = [b for b, t in itn.calls() if A.cname(t).endswith("::is_empty")]
+        lens = [b for b, t in itn.calls() if "try_from" in A.cname(t) and "u16" in (A.cname(t) + (t.get("full") or ""))]
+        panics = [b for b, t in itn.calls() if A.cname(t).startswith(("core::panicking::", "std::rt::begin_panic", "std::panicking::"))]
+        okv = bool(emp) and bool(lens) and len(panics) >= 2
+        if okv:
+            # the "empty" edge panics, the "non-empty" edge goes on
+            sw = A.switch_after_call(itn, emp[0])
+            if sw is None:
+                okv = False
+            else:
+                tm_, neg_ = A.strip_not(ogi.of_operand(itn.term(sw)["d"]))
+                z_, t_ = A.bool_edges(itn, sw)
+                empty_edge = z_ if neg_ else t_
+                okv = any(p_ in A.reach(itn, list(empty_edge)) for p_ in panics) and not any(x in A.reach(itn, list(empty_edge), avoid=panics) for x in itn.return_blocks())
+            sw2 = A.switch_after_call(itn, [b for b, t in itn.calls() if A.cname(t).endswith(("Result::<T, E>::is_ok", "Result::<T, E>::is_err")) ][0]) if [b for b, t in itn.calls() if A.cname(t).endswith(("Result::<T, E>::is_ok", "Result::<T, E>::is_err"))] else None
+            if okv and sw2 is not None:
+                c2 = [b for b, t in itn.calls() if A.cname(t).endswith(("Result::<T, E>::is_ok", "Result::<T, E>::is_err"))][0]
+                tm_, neg_ = A.strip_not(ogi.of_operand(itn.term(sw2)["d"]))
+                z_, t_ = A.bool_edges(itn, sw2)
+                inv = A.cname(itn.term(c2)).endswith("is_err")
+                too_long = (t_ if inv else z_) if not neg_ else (z_ if inv else t_)
+                okv = any(p_ in A.reach(itn, list(too_long)) for p_ in panics) and not any(x in A.reach(itn, list(too_long), avoid=panics) for x in itn.return_blocks())
+        ctx.ob("R-C02.8", itn, "batch-item-key-validated-at-creation", okv,
+               "an empty / over-long key is rejected when the batch item is created" if okv else
+               "a batch item with an empty (or over-long) key can be created: commit journals it, the tree panics on it, and every later open of the database panics while replaying the record")
+
     # ---- R-C02.9 the default durability.  R-C02.1 decides "persist between append and apply" under the assumption that, with
     # automatic journal persist, a batch/transaction carries durability = Some(..).  That assumption is an obligation of its
     # own: every way to obtain a WriteBatch / BaseTransaction must install Some(..) when manual_journal_persist is false.
